@@ -46,7 +46,7 @@ static int compute_extensions_start(asn1p_expr_t *expr);
 static int expr_break_recursion(arg_t *arg, asn1p_expr_t *expr);
 static int expr_as_xmlvaluelist(arg_t *arg, asn1p_expr_t *expr);
 static int expr_elements_count(arg_t *arg, asn1p_expr_t *expr);
-static int emit_single_member_OER_constraint_value(arg_t *arg, asn1cnst_range_t *range);
+static int emit_single_member_OER_constraint_value(arg_t *arg, asn1cnst_range_t *range, asn1p_expr_type_e etype);
 static int emit_single_member_OER_constraint_size(arg_t *arg, asn1cnst_range_t *range);
 static int emit_single_member_PER_constraint(arg_t *arg, asn1cnst_range_t *range, int juscountvalues, const char *type);
 static int emit_member_OER_constraints(arg_t *arg, asn1p_expr_t *expr, const char *pfx);
@@ -1877,7 +1877,7 @@ emit_single_member_OER_constraint_comment(arg_t *arg, asn1cnst_range_t *range, c
 }
 
 static int
-emit_single_member_OER_constraint_value(arg_t *arg, asn1cnst_range_t *range) {
+emit_single_member_OER_constraint_value(arg_t *arg, asn1cnst_range_t *range, asn1p_expr_type_e etype) {
     if(!range) {
         /* oer_support.h: asn_oer_constraint_s */
         OUT("{ 0, 0 }");
@@ -1886,7 +1886,7 @@ emit_single_member_OER_constraint_value(arg_t *arg, asn1cnst_range_t *range) {
 
 	if(range->incompatible || range->not_OER_visible) {
 		OUT("{ 0, 0 }");
-    } else if(expr_get_type(arg, arg->expr) == ASN_BASIC_REAL) {
+    } else if(etype == ASN_BASIC_REAL) {
         if(range->narrowing == NARROW_FLOAT32) {
             OUT("{ sizeof(float), 0 }");
         } else if(range->narrowing == NARROW_DOUBLE64) {
@@ -2113,7 +2113,7 @@ emit_member_OER_constraints(arg_t *arg, asn1p_expr_t *expr, const char *pfx) {
     range = asn1constraint_compute_OER_range(expr->Identifier, etype,
                                              expr->combined_constraints,
                                              ACT_EL_RANGE, 0, 0, 0);
-    if(emit_single_member_OER_constraint_value(arg, range)) {
+    if(emit_single_member_OER_constraint_value(arg, range, etype)) {
         return -1;
     }
     emit_single_member_OER_constraint_comment(arg, range, 0);
